@@ -24,7 +24,7 @@ def wcs_simple(rot_deg=0.0, cdelt=1e-3, proj='TAN', ctype=('RA', 'DEC'), crval=(
     if lat_first:
         w.wcs.ctype = list(w.wcs.ctype)[::-1]
         w.wcs.crval = [crval[1], crval[0]]
-        w.wcs.cdelt = [cdelt, sx]
+        w.wcs.cdelt = [cdelt, -sx]      # flip=False: east is 90 deg counter-clockwise from north in the image (standard parity)
         t = math.radians(rot_deg)
         w.wcs.pc = [[math.cos(t), -math.sin(t)], [math.sin(t), math.cos(t)]]
         encoding = 'done'
